@@ -937,3 +937,122 @@ Proof.
   - apply plan_instrs.
   - simpl. discriminate.
 Qed.
+
+(* ---------- a call that fails makes the run fail, whatever the failure is ---------- *)
+(* The model has no access to the engine's error value: [eng] has a single [EngErr], a fault set is a set of
+   call indices.  Made explicit: a fault point may carry any error text; it is dropped before [run] sees it. *)
+Definition fault_points (fe : list (nat * string)) : list nat := map fst fe.
+
+Lemma exec_n : forall F o oth x c i, (forall e, x <> IFail e) -> i_res i = None ->
+  i_n (snd (exec F o oth x c i)) = S (i_n i).
+Proof.
+  intros F o oth x c i Hx Hi. destruct x; try (exfalso; eapply Hx; reflexivity);
+    unfold exec, acquire_reserved, acquire_shared;
+    repeat match goal with
+           | |- context [if ?b then _ else _] => destruct b; simpl
+           | |- context [match ?e with _ => _ end] => destruct e; simpl
+           end; reflexivity.
+Qed.
+
+Lemma exec_fault_aborts : forall F o oth x c i,
+  x <> IAlter -> (forall e, x <> IFail e) -> faulty F i = true ->
+  i_res (snd (exec F o oth x c i)) = Some (RErr DatabaseError).
+Proof.
+  intros F o oth x c i Ha Hx Hf. destruct x; try (exfalso; eapply Hx; reflexivity); try contradiction;
+    simpl; rewrite Hf; reflexivity.
+Qed.
+
+Lemma exec_IFail_n : forall F o oth e c i, i_n (snd (exec F o oth (IFail e) c i)) = i_n i /\
+  i_res (snd (exec F o oth (IFail e) c i)) = Some (RErr e).
+Proof. intros. split; reflexivity. Qed.
+
+(* every faulty call index (other than the ignored ALTER) that has been issued has ended the run with Err *)
+Definition hit_inv (F : list nat) (i : inst) : Prop :=
+  forall j, In j F -> j <> 1 -> j < i_n i -> exists e, i_res i = Some (RErr e).
+
+Lemma faulty_In : forall F i, In (i_n i) F -> faulty F i = true.
+Proof. intros F i H. unfold faulty. apply existsb_exists. exists (i_n i). split; [exact H|apply Nat.eqb_refl]. Qed.
+
+Lemma run_list_hit : forall F o oth l c i,
+  ~ In IAlter l -> hit_inv F i -> hit_inv F (snd (run_list F o oth l (c, i))).
+Proof.
+  intros F o oth l. induction l as [|x l IH]; intros c i Hl Hinv; simpl; [exact Hinv|].
+  destruct (i_res i) eqn:E; [exact Hinv|].
+  assert (Hx : x <> IAlter) by (intros ->; apply Hl; left; reflexivity).
+  assert (Hl' : ~ In IAlter l) by (intros H; apply Hl; right; exact H).
+  destruct (exec F o oth x c i) as [c1 i1] eqn:Ex.
+  apply IH; [exact Hl'|].
+  assert (Hi1 : i1 = snd (exec F o oth x c i)) by (rewrite Ex; reflexivity).
+  intros j Hj Hj1 Hlt.
+  destruct x; try (
+    assert (Hn : i_n i1 = S (i_n i)) by (rewrite Hi1; apply exec_n; [intros e0; discriminate|exact E]);
+    rewrite Hn in Hlt;
+    destruct (Nat.eq_dec j (i_n i)) as [->|Hne];
+    [ exists DatabaseError; rewrite Hi1; apply exec_fault_aborts; [discriminate|intros e0; discriminate|apply faulty_In; exact Hj]
+    | destruct (Hinv j Hj Hj1) as [e0 He0]; [lia|rewrite E in He0; discriminate] ]).
+  - contradiction.
+  - (* IFail: no call issued *)
+    exists e. rewrite Hi1. reflexivity.
+Qed.
+
+Lemma plan_no_alter : forall o ver ids ms, ~ In IAlter (plan o ver ids ms).
+Proof. intros o ver ids ms H. destruct (plan_instrs o ver ids ms IAlter H) as [_ Hn]. apply Hn. reflexivity. Qed.
+
+Theorem fault_hit_aborts : forall F o ms d j,
+  In j F -> j <> 1 -> j < i_n (snd (run F o ms d)) ->
+  exists e, i_res (snd (run F o ms d)) = Some (RErr e).
+Proof.
+  intros F o ms d j Hj Hj1 Hlt.
+  assert (Hall : hit_inv F (snd (run F o ms d))).
+  { unfold run, run_from.
+    (* ICreate, IAlter by hand; the rest contains no IAlter *)
+    assert (H2 : hit_inv F (snd (run_list F o [] [ICreate; IAlter] (d, inst0))) /\
+                 (i_res (snd (run_list F o [] [ICreate; IAlter] (d, inst0))) = None ->
+                  i_n (snd (run_list F o [] [ICreate; IAlter] (d, inst0))) = 2)).
+    { rewrite run_list_cons_running by reflexivity.
+      destruct (exec F o [] ICreate d inst0) as [c1 i1] eqn:E1.
+      assert (Hi1 : i1 = snd (exec F o [] ICreate d inst0)) by (rewrite E1; reflexivity).
+      assert (Hn1 : i_n i1 = 1) by (rewrite Hi1; apply (exec_n F o [] ICreate d inst0); [intros e0; discriminate|reflexivity]).
+      destruct (i_res i1) eqn:R1.
+      - rewrite (run_list_finished F o [] [IAlter] (c1, i1) _ R1). simpl snd.
+        split; [|intros Hc; rewrite R1 in Hc; discriminate].
+        intros j0 Hj0 Hne Hl0. rewrite Hn1 in Hl0. assert (j0 = 0) by lia. subst j0.
+        assert (Hf : i_res (snd (exec F o [] ICreate d inst0)) = Some (RErr DatabaseError))
+          by (apply exec_fault_aborts; [discriminate|intros e0; discriminate|apply faulty_In; exact Hj0]).
+        rewrite <- Hi1, R1 in Hf. exists DatabaseError. rewrite R1. exact Hf.
+      - rewrite run_list_cons_running by exact R1.
+        assert (Hn2 : i_n (snd (exec F o [] IAlter c1 i1)) = 2)
+          by (rewrite (exec_n F o [] IAlter c1 i1); [rewrite Hn1; reflexivity|intros e0; discriminate|exact R1]).
+        destruct (exec F o [] IAlter c1 i1) as [c2 i2] eqn:E2. simpl run_list. cbn [snd] in *.
+        split; [|intros _; exact Hn2].
+        intros j0 Hj0 Hne Hl0. rewrite Hn2 in Hl0.
+        assert (j0 = 0) by lia. subst j0. exfalso.
+        assert (Hf : i_res (snd (exec F o [] ICreate d inst0)) = Some (RErr DatabaseError))
+          by (apply exec_fault_aborts; [discriminate|intros e0; discriminate|apply faulty_In; exact Hj0]).
+        rewrite <- Hi1, R1 in Hf. discriminate. }
+    destruct H2 as [H2 _].
+    change prelude with ([ICreate; IAlter] ++ [IBegin; IReadMax; IReadIds]).
+    rewrite run_list_app.
+    destruct (run_list F o [] [ICreate; IAlter] (d, inst0)) as [c2 i2] eqn:E12. cbn [snd] in H2.
+    assert (H5 : hit_inv F (snd (run_list F o [] [IBegin; IReadMax; IReadIds] (c2, i2)))).
+    { apply run_list_hit; [|exact H2]. intros [H|[H|[H|[]]]]; discriminate. }
+    destruct (run_list F o [] [IBegin; IReadMax; IReadIds] (c2, i2)) as [c5 i5] eqn:E5. cbn [snd] in *.
+    destruct (i_res i5) eqn:R5; [exact H5|].
+    apply run_list_hit; [apply plan_no_alter|exact H5]. }
+  exact (Hall j Hj Hj1 Hlt).
+Qed.
+
+(* the error text attached to a fault point is irrelevant, and a fault point that is reached — at whatever
+   statement, with whatever error — ends the run with Err and leaves the database as it was *)
+Theorem failure_value_irrelevant : forall (fe : list (nat * string)) o ms d j,
+  In j (fault_points fe) -> j <> 1 -> j < i_n (snd (run (fault_points fe) o ms d)) ->
+  (exists e, i_res (snd (run (fault_points fe) o ms d)) = Some (RErr e)) /\
+  (fst (run (fault_points fe) o ms d) = d \/ fst (run (fault_points fe) o ms d) = sql_create_vt d \/
+   fst (run (fault_points fe) o ms d) = bootstrap d) /\
+  (forall fe', map fst fe' = map fst fe -> run (fault_points fe') o ms d = run (fault_points fe) o ms d).
+Proof.
+  intros fe o ms d j Hj Hj1 Hlt.
+  destruct (fault_hit_aborts _ o ms d j Hj Hj1 Hlt) as [e He].
+  split; [exists e; exact He|]. split; [exact (fail_leaves_db _ o ms d e He)|].
+  intros fe' H. unfold fault_points. rewrite H. reflexivity.
+Qed.
